@@ -125,7 +125,7 @@ type ShardSpec struct {
 	// (the unchanged coordinator asks once; a report once given stays the shard's report)
 	Status2Fail bool `json:"status2Fail,omitempty"`
 	// FailShape: how a scripted failure looks on the wire when the scenario runs through the real pkg/api
-	// client (Scenario.Wire): conn | 503-error | 500-success | 200-error | 200-garbage | 404-empty | 400-error | 200-wrong-type
+	// client (Scenario.Wire): conn | 503-error | 500-success | 200-error | 200-garbage | 404-empty | 400-error | 200-wrong-type | 200-null-data
 	FailShape string `json:"failShape,omitempty"`
 	Held      []Held `json:"held"`
 	HeadExtra int64  `json:"headExtra"`
@@ -404,6 +404,13 @@ func (wireRT) RoundTrip(req *http.Request) (*http.Response, error) {
 		return wireResp(req, 200, "<html><body>502 Bad Gateway</body></html>"), nil
 	case "404-empty":
 		return wireResp(req, 404, ""), nil
+	case "200-null-data":
+		// the envelope of a successful answer without any data where an object is expected (runtime info); for the
+		// status request "null" is what a sidecar with a nil map answers - no failure - so that one fails with 503
+		if strings.HasPrefix(req.URL.Path, "/api/v1/shard/runtimeinfo") {
+			return wireResp(req, 200, `{"status":"success","data":null}`), nil
+		}
+		return wireResp(req, 503, string(errBody)), nil
 	case "200-wrong-type":
 		// status 200 and the usual envelope, but a member has another JSON type than the client expects (a proxy's
 		// canned answer, another software on the port): that is no answer of a sidecar
